@@ -247,6 +247,20 @@ func RunC05(env *Env, rep *Report) {
 			}
 		}
 	}
+	for _, ctx := range swContexts {
+		for _, first := range []string{"ifbreak", "cmd"} {
+			for n := 2; n <= 4; n++ {
+				sh := []swEntry{{Body: first}, {Default: true, Body: "cmd"}}
+				for i := 0; i < n; i++ {
+					sh = append(sh, swEntry{Body: "empty"})
+				}
+				cs := c03Case(sh, ctx)
+				cs.Name = "c05/" + cs.Name
+				cs.Oracle = c05Oracle(cs.Prog)
+				cases = append(cases, cs)
+			}
+		}
+	}
 	for m := 1; m <= 2; m++ {
 		for _, sh := range enumSwitchShapes(m, c03Bodies) {
 			for _, ctx := range []string{"last", "if", "nested"} {
